@@ -4,6 +4,7 @@ import itertools
 import json
 import os
 import re
+import shutil
 import subprocess
 import sys
 
@@ -35,7 +36,7 @@ LEVEL_TEXT = (
 LEVEL_NOTE = "Trusts hashlib.md5, CPython float repr, and the harness's own canonical encoder (cross-validated against json.dumps on every value)."
 CLASSES = [
     "nested", "unicode", "float_nonint", "float_intvalued", "bool_int_mix",
-    "tuple_spelling", "synced_wrapper", "key_perm>=3", "cross_process", "golden", "alias", "rekey_then_reopen_by_id",
+    "tuple_spelling", "synced_wrapper", "key_perm>=3", "cross_process", "golden", "alias", "alias_synced", "bulk_cache", "rekey_then_reopen_by_id",
 ]
 ASSUMPTIONS = [
     "md5 collisions do not occur within the explored space",
@@ -250,6 +251,28 @@ def run_case(case, ctx):
             except Exception as e:
                 mms.append(Mismatch("reload", f"fresh open by id of {sp!r} raised {type(e).__name__}: {e}"))
             job.remove()
+        # aliasing through synced collections: a state point assembled from another job's (synced) state
+        # point values must not stay tied to that job
+        if case.get("init", True) and case.get("alias") and any(isinstance(x, (list, dict)) for x in sp.values()):
+            cl.add("alias_synced")
+            base = project.open_job(json.loads(json.dumps(sp))).init()
+            derived_sp = dict(base.sp)
+            derived_sp["__k__"] = 1
+            want_d = oracle.job_id(dict(json.loads(json.dumps(sp)), __k__=1))
+            dj = project.open_job(derived_sp)
+            before_d = oracle.canon(dj.statepoint()) if dj.id == want_d else None
+            for kk in sorted(sp):
+                if isinstance(sp[kk], list):
+                    base.sp[kk].append("__extra__")
+                    break
+                if isinstance(sp[kk], dict):
+                    base.sp[kk]["__extra__"] = 1
+                    break
+            if dj.id != want_d:
+                mms.append(Mismatch("spelling_synced", f"state point assembled from synced values of {sp!r}: id {dj.id} != {want_d}"))
+            elif oracle.canon(dj.statepoint()) != before_d or oracle.canon(dict(dj.cached_statepoint)) != before_d:
+                mms.append(Mismatch("alias", f"editing the job a state point value was taken from changed the job opened with it ({sp!r})"))
+            base.remove()
         # aliasing
         if case.get("alias"):
             cl.add("alias")
@@ -328,6 +351,39 @@ def run_case(case, ctx):
                     if oracle.job_id(v) != jid or h.id != jid:
                         mms.append(Mismatch("reopened_id_ne_hash", f"open_job(id={jid[:8]}) after editing {sp!r} with {edits!r}: {what} = {v!r} hashes to {oracle.job_id(v)[:8]}"))
         return {"mismatches": mms, "classes": ["rekey_then_reopen_by_id"], "nontrivial": bool(edits)}
+    if kind == "bulk_cache":
+        # many jobs: the persistent cache is filled in chunks; every id handed out in a later session must
+        # still be the hash of the state point it comes with
+        import signac as _s
+
+        d = ctx.tmpdir("c01b")
+        _s.init_project(d)
+        n = int(case.get("n", 2003))
+        model = {}
+        for k in range(n):
+            spk = {"bulk": k, "f": k / 2}
+            jid = oracle.job_id(spk)
+            os.mkdir(os.path.join(d, "workspace", jid))
+            with open(os.path.join(d, "workspace", jid, "signac_statepoint.json"), "w") as f:
+                f.write(json.dumps(spk))
+            model[jid] = spk
+        _s.Project(d).update_cache()
+        fresh = _s.Project(d)
+        ids = sorted(model)
+        bad = 0
+        for jid in ids[:: max(1, n // 300)] + ids[-50:]:
+            job = fresh.open_job(id=jid)
+            got = dict(job.cached_statepoint)
+            if oracle.job_id(got) != jid or oracle.canon(job.statepoint()) != oracle.canon(model[jid]):
+                bad += 1
+                if bad <= 2:
+                    mms.append(Mismatch("reopened_id_ne_hash", f"workspace of {n} jobs after update_cache(): open_job(id={jid[:8]}) comes with {got!r} (hash {oracle.job_id(got)[:8]})"))
+        found = sorted(j.id for j in fresh.find_jobs({"bulk": {"$gte": n - 5}}))
+        want_found = sorted(i for i, v in model.items() if v["bulk"] >= n - 5)
+        if found != want_found:
+            mms.append(Mismatch("bulk_find", f"workspace of {n} jobs: find_jobs(bulk >= {n - 5}) returned {len(found)} jobs, expected {len(want_found)}"))
+        shutil.rmtree(d, ignore_errors=True)
+        return {"mismatches": mms, "classes": ["bulk_cache"], "nontrivial": True}
     if kind == "partition":
         # injectivity on an enumerated slice: ids partition == canonical-text partition
         project = _project(ctx)
@@ -442,6 +498,10 @@ def run(ctx):
     )
     drive(ctx, case_st, n_random, ctx.apply)
 
+    # large workspaces (chunked cache update)
+    for i, n in enumerate([2003, 3001] if ctx.tier == "quick" else [1999, 2003, 3001, 5003]):
+        if i % ctx.nworkers == ctx.worker:
+            ctx.apply({"kind": "bulk_cache", "n": n})
     # id = hash for handles re-opened by id after edits through cache-sharing handles
     hist_st = st.fixed_dictionaries({
         "kind": st.just("rekey_cache"),
